@@ -178,7 +178,7 @@ class Ctx:
                 out = os.path.join(dst, rel, os.path.relpath(root, src))
                 os.makedirs(out, exist_ok=True)
                 for fn in files:
-                    m = re.match(r'^(c\d\d|x\d\d|e2e)_.*_test\.go$', fn)
+                    m = re.match(r'^(c\d\d|x\d\d|e2e)_.*\.go$', fn)
                     if m and m.group(1) != mine and fn not in also and root == src:
                         continue
                     shutil.copy(os.path.join(root, fn), os.path.join(out, fn))
